@@ -118,6 +118,13 @@ def evaluate(ctx, cases):
         mod = qeval.model_nodes(m)
         if impl != mod:
             ctx.mismatch("q.eval", inp, impl[:6], mod[:6])
+        if ctx.rng.random() < (0.08 if ctx.tier == "quick" else 0.3):
+            # the observation points named by the property: the module-level functions on the query text and the
+            # compiled query's findall, next to the compiled finditer used above
+            ctx.count("entry-points")
+            qeval.compare_entry_points(ctx, c["text"], compiled, doc, None, [[n["path"], n["val"]] for n in impl],
+                                       "jsonpath.findall / jsonpath.finditer / compile().findall must agree with compile().finditer", inp,
+                                       only=("compiled.findall:values", "env.finditer", "env.findall:values", "compiled.query", "env.match:first"))
         if m["std"]:
             want = [(n["path"], n["val"]) for n in m["spec"]]
             got = [(n["path"], n["val"]) for n in impl]
